@@ -26,6 +26,7 @@ from pathlib import Path
 import c06_universe as u6
 import c15_universe as uni
 import lib
+from translate import checkcall as tr_checkcall
 from translate import solve as tr_solve
 
 PROP = "C06"
@@ -37,7 +38,8 @@ NOBJ = len(u6.OBJ_NAMES)
 
 
 def gen_files():
-    return {"Solve.v": tr_solve.translate(str(lib.REPO)), "SolveAtoms.v": uni.gen_atoms_v(), "CallObjs.v": u6.gen_objs_v()}
+    return {"Solve.v": tr_solve.translate(str(lib.REPO)), "SolveAtoms.v": uni.gen_atoms_v(), "CallObjs.v": u6.gen_objs_v(),
+            "CheckCall.v": tr_checkcall.translate(str(lib.REPO))}
 
 
 # ---------------------------------------------------------------------------
@@ -71,8 +73,43 @@ def literal_for(rng, sv):
     return rng.randrange(NOBJ)
 
 
+def norm_ann(a):
+    """old corpus entries write {"list": k} / {"dict": [k, j]} with bare indices"""
+    if isinstance(a, int):
+        return {"v": a}
+    if isinstance(a, dict):
+        if "fun" in a:
+            return a
+        key = next(iter(a))
+        v = a[key]
+        if key == "v":
+            return a
+        if key in ("dict", "tup2"):
+            return {key: [norm_ann(v[0]), norm_ann(v[1])]}
+        return {key: norm_ann(v)}
+    return a
+
+
+def elem_for(rng, ann, sig):
+    """an element (inside a list / tuple / dict argument) for an inner annotation: a static type or nested"""
+    ann = norm_ann(ann)
+    if isinstance(ann, dict):
+        key = next(iter(ann))
+        if key == "v":
+            return list(rng.choice(list(u6.ELEMS)))
+        if key == "list":
+            return {"list": elem_for(rng, ann["list"], sig)}
+        return list(rng.choice(list(u6.ELEMS)))
+    svl = "any" if ann in (None, "any") else tuple(ann)
+    good = [t for t in u6.ELEMS if sub_sval(t, svl)]
+    if good and rng.random() < 0.8:
+        return list(rng.choice(good))
+    return list(rng.choice(list(u6.ELEMS)))
+
+
 def arg_for(rng, ann, sig):
     """an argument that is shaped for the annotation"""
+    ann = norm_ann(ann)
     if isinstance(ann, dict):
         if "v" in ann:
             sv = decl_sval(sig["tvs"][ann["v"]])
@@ -81,16 +118,29 @@ def arg_for(rng, ann, sig):
                 if cands:
                     return {"t": list(rng.choice(cands))}
             return {"o": literal_for(rng, sv)}
-        if "list" in ann:
-            if rng.random() < 0.08:
-                return {"o": rng.randrange(NOBJ)}
-            return {"list": list(rng.choice(list(u6.ELEMS)))}
-        if "dict" in ann:
-            return {"dict": [list(rng.choice(list(u6.ELEMS))), list(rng.choice(list(u6.ELEMS)))]}
         if "fun" in ann:
             if rng.random() < 0.06:
                 return {"o": rng.randrange(NOBJ)}
             return {"fun": rng.choice(list(u6.FUNS))}
+        key = next(iter(ann))
+        if rng.random() < 0.06:
+            return {"o": rng.randrange(NOBJ)}
+        if key == "opt":
+            if rng.random() < 0.3:
+                return {"o": u6.OBJ_NAMES.index("litNone")}
+            x = arg_for(rng, ann["opt"], sig)
+            if "t" in x and len(x["t"]) > 1:
+                # a union-typed argument is split member by member against a union annotation
+                # (MultiValuedValue.can_assign); the model's values are opaque: not generated
+                x = {"t": [x["t"][0]]}
+            return x
+        if key == "list":
+            return {"list": elem_for(rng, ann["list"], sig)}
+        if key == "tupv":
+            return {"tupv": elem_for(rng, ann["tupv"], sig)}
+        if key == "tup2":
+            return {"tup2": [elem_for(rng, ann["tup2"][0], sig), elem_for(rng, ann["tup2"][1], sig)]}
+        return {"dict": [elem_for(rng, ann["dict"][0], sig), elem_for(rng, ann["dict"][1], sig)]}
     sv = "any" if ann in (None, "any") else tuple(ann)
     if rng.random() < 0.12:
         good = [t for t in u6.TYPED if sv == "any" or all(any(uni.atom_table()[x][y] for x in sv) for y in t)]
@@ -116,18 +166,35 @@ def gen_sig(rng, idx):
         used.add(k)
         return k
 
+    def inner(depth=0):
+        """an annotation usable inside list[.] / tuple[.] / Optional[.]: a type variable, a closed type, or nested"""
+        r = rng.random()
+        if r < 0.6:
+            return {"v": tv()}
+        if r < 0.8 or depth >= 1:
+            return list(rng.choice([(A("int"),), (A("str"),), (A("float"),), (A("object"),)]))
+        return {"list": inner(depth + 1)}
+
     def ann(simple=False):
         if generic and rng.random() < 0.6:
             r = rng.random()
-            if simple or r < 0.6:
+            if simple or r < 0.45:
                 return {"v": tv()}
-            if r < 0.75:
-                return {"list": tv()}
+            if r < 0.57:
+                return {"list": inner()}
+            if r < 0.64:
+                return {"opt": {"v": tv()}}
+            if r < 0.70:
+                return {"tupv": inner(1)}
+            if r < 0.76:
+                return {"tup2": [inner(1), inner(1)]}
             if r < 0.83:
-                return {"dict": [tv(), tv()]}
+                return {"dict": [{"v": tv()}, {"v": tv()}]}
             rr = rng.random()
             ret = None if rr < 0.2 else ({"v": tv()} if rr < 0.75 else list(rng.choice([(A("str"),), (A("int"),), (A("object"),)])))
             return {"fun": [tv(), ret]}
+        if not simple and rng.random() < 0.08:
+            return rng.choice([{"list": [A("int")]}, {"opt": [A("int")]}, {"tupv": [A("float")]}, {"tup2": [[A("int")], [A("str")]]}])
         t = rng.choice(TYPE_POOL)
         return t if t == "any" else list(t)
 
@@ -216,6 +283,7 @@ def gen_call(rng, sig):
 
 
 def ann_src(a, sig):
+    a = norm_ann(a)
     if a is None:
         return None
     if a == "any":
@@ -225,9 +293,15 @@ def ann_src(a, sig):
         if "v" in a:
             return tn(a["v"])
         if "list" in a:
-            return f"list[{tn(a['list'])}]"
+            return f"list[{ann_src(a['list'], sig)}]"
+        if "tupv" in a:
+            return f"tuple[{ann_src(a['tupv'], sig)}, ...]"
+        if "tup2" in a:
+            return f"tuple[{ann_src(a['tup2'][0], sig)}, {ann_src(a['tup2'][1], sig)}]"
+        if "opt" in a:
+            return f"{ann_src(a['opt'], sig)} | None"
         if "dict" in a:
-            return f"dict[{tn(a['dict'][0])}, {tn(a['dict'][1])}]"
+            return f"dict[{ann_src(a['dict'][0], sig)}, {ann_src(a['dict'][1], sig)}]"
         k, r = a["fun"]
         rs = "Any" if r is None else ann_src(r, sig)
         return f"Callable[[{tn(k)}], {rs}]"
@@ -295,6 +369,26 @@ def render_case(name, callee, call):
     runtime defaults, so that the case can be executed); literals and callbacks appear in the call."""
     formals = []
 
+    def elem_src(e):
+        """(type source, runtime value source) of an element: a static type or a nested argument"""
+        if isinstance(e, dict):
+            return struct_src(e)
+        t = tuple(e)
+        return u6.ELEMS[t] if t in u6.ELEMS else u6.TYPED[t]
+
+    def struct_src(a):
+        if "list" in a:
+            t, d = elem_src(a["list"])
+            return f"list[{t}]", f"[{d}]"
+        if "tupv" in a:
+            t, d = elem_src(a["tupv"])
+            return f"tuple[{t}, ...]", f"({d},)"
+        if "tup2" in a:
+            (t1, d1), (t2, d2) = elem_src(a["tup2"][0]), elem_src(a["tup2"][1])
+            return f"tuple[{t1}, {t2}]", f"({d1}, {d2})"
+        (tk, dk), (tv_, dv) = elem_src(a["dict"][0]), elem_src(a["dict"][1])
+        return f"dict[{tk}, {tv_}]", f"{{{dk}: {dv}}}"
+
     def arg(a):
         if "o" in a:
             return obj_src(a["o"])
@@ -303,13 +397,9 @@ def render_case(name, callee, call):
         v = f"a{len(formals)}"
         if "t" in a:
             t, d = u6.TYPED[tuple(a["t"])]
-            formals.append(f"{v}: {t} = {d}")
-        elif "list" in a:
-            t, d = u6.ELEMS[tuple(a["list"])]
-            formals.append(f"{v}: list[{t}] = [{d}]")
         else:
-            (tk, dk), (tv_, dv) = u6.ELEMS[tuple(a["dict"][0])], u6.ELEMS[tuple(a["dict"][1])]
-            formals.append(f"{v}: dict[{tk}, {tv_}] = {{{dk}: {dv}}}")
+            t, d = struct_src(a)
+        formals.append(f"{v}: {t} = {d}")
         return v
 
     args = [arg(a) for a in call["pos"]]
@@ -391,6 +481,23 @@ def runtime_callable(mod, sig):
     return k().m if fl == "method" else k.m
 
 
+def simple_sig(sig):
+    """annotations the literal-only oracle understands: closed types, bare type variables, list[T]/dict[K, V]/callbacks"""
+    def ok(a):
+        a = norm_ann(a)
+        if not isinstance(a, dict):
+            return True
+        if "v" in a or "fun" in a:
+            return True
+        key = next(iter(a))
+        if key == "list":
+            return isinstance(a["list"], dict) and "v" in a["list"]
+        if key == "dict":
+            return all(isinstance(x, dict) and "v" in x for x in a["dict"])
+        return False
+    return all(ok(p["ann"]) for p in sig["params"])
+
+
 def literal_call(call):
     return call.get("star") is None and call.get("starkw") is None and all("o" in a for a in call["pos"]) and all("o" in a for _, a in call["kw"])
 
@@ -413,7 +520,7 @@ def oracle_case(mod, sig, call):
     for name, v in ba.arguments.items():
         p = by_name[name]
         vals = list(v) if p["kind"] == "vp" else list(v.values()) if p["kind"] == "vk" else [v]
-        a = p["ann"]
+        a = norm_ann(p["ann"])
         if a is None or not vals:
             continue
         if isinstance(a, dict):
@@ -449,6 +556,210 @@ def oracle_case(mod, sig, call):
     return {"binds": True, "bad": sorted(set(bad)), "solvable": solvable, "t_objs": t_objs}
 
 
+
+# ---------------------------------------------------------------------------
+# runtime oracle for every concrete call (typed / list / dict / callback arguments included)
+#
+# An argument is represented by concrete objects: a literal by itself; a value of static type
+# t1 | .. | tn by one canonical instance of every member (int -> 1, float -> 1.5, A -> A(), ...): on
+# this fragment "the static type is accepted" <=> "every representative is a runtime member"
+# (classes with the int -> float promotion, literals); a list / dict by the representatives of its
+# element / key / value types; a callback by its parameter and result types.  Binding is CPython's
+# (inspect.signature(...).bind on the argument descriptors).
+
+_CLASS_REP = None
+
+
+def class_rep(name):
+    global _CLASS_REP
+    if _CLASS_REP is None:
+        _CLASS_REP = {"int": 1, "bool": True, "float": 1.5, "str": "a", "object": object(), "clsA": uni.a_inst, "clsB": uni.b_inst, "clsC": uni.c_inst}
+    return _CLASS_REP[name]
+
+
+def reps_sval(svl):
+    out = []
+    lit = dict(uni.LITERAL_OBJECTS)
+    for a in svl:
+        n = uni.ATOM_NAMES[a]
+        if n in lit:
+            out.append(lit[n])
+        else:
+            out.append(class_rep(n))
+    return out
+
+
+def class_part(svl):
+    """the class atoms of a declared type: a value of static type `int` is accepted by `int` or `float`,
+    never by Literal[1] although its representative 1 is a member of it"""
+    if svl == "any":
+        return "any"
+    names = dict(uni.CLASS_ATOMS)
+    return tuple(a for a in svl if uni.ATOM_NAMES[a] in names)
+
+
+def elem_reps(e):
+    return arg_reps(e) if isinstance(e, dict) else ("typed", reps_sval(e))
+
+
+def arg_reps(a):
+    if "o" in a:
+        return ("objs", [u6.obj_value(a["o"])])
+    if "t" in a:
+        return ("typed", reps_sval(a["t"]))
+    if "list" in a:
+        return ("list", elem_reps(a["list"]))
+    if "tupv" in a:
+        return ("tupv", elem_reps(a["tupv"]))
+    if "tup2" in a:
+        return ("tup2", elem_reps(a["tup2"][0]), elem_reps(a["tup2"][1]))
+    if "dict" in a:
+        return ("dict", elem_reps(a["dict"][0]), elem_reps(a["dict"][1]))
+    p, r = u6.FUNS[a["fun"]]
+    return ("fun", tuple(p), tuple(r))
+
+
+def objs_in(objs, svl):
+    return all(u6.member_sval(o, svl) for o in objs)
+
+
+def sub_sval(a, b):
+    return b == "any" or objs_in(reps_sval(a), class_part(b))
+
+
+LIST_ATOMS = {"list_int": (A("int"),), "list_bool": (A("bool"),), "list_object": (A("object"),), "seq_int": (A("int"),)}
+
+
+def fits_plain(rep, ann):
+    """a representative structure against a closed type of the fragment"""
+    if ann in (None, "any"):
+        return True
+    svl = tuple(ann)
+    if rep[0] == "objs":
+        return objs_in(rep[1], svl)
+    if rep[0] == "typed":
+        return objs_in(rep[1], class_part(svl))
+    if A("object") in svl:
+        return True
+    if rep[0] == "list" and rep[1][0] in ("objs", "typed"):
+        return any(uni.ATOM_NAMES[a] in LIST_ATOMS and fits_plain(rep[1], LIST_ATOMS[uni.ATOM_NAMES[a]]) for a in svl)
+    return False
+
+
+def oracle_full(mod, sig, call):
+    fn = runtime_callable(mod, sig)
+    try:
+        ba = inspect.signature(fn).bind(*call["pos"], **{n: a for n, a in call["kw"]})
+    except TypeError as ex:
+        return {"binds": False, "why": str(ex)[:80]}
+    tvs = sig["tvs"]
+    decl = lambda k: u6.DECLS[tvs[k]][1]
+
+    def decl_ok(k, objs):
+        d = decl(k)
+        if d[0] == "unbounded":
+            return True
+        if d[0] == "bounded":
+            return objs_in(objs, d[1])
+        return any(objs_in(objs, c) for c in d[1])
+
+    lowers = {k: [] for k in range(len(tvs))}
+    uppers = {k: [] for k in range(len(tvs))}
+    bad = []
+    by_name = {p["name"]: p for p in sig["params"]}
+
+    def lower(k, objs, name):
+        if not decl_ok(k, objs):
+            bad.append(name)
+        else:
+            lowers[k] += objs
+
+    none_obj = [None]
+
+    def match(a, r, name):
+        """mirror of e.can_assign(x) on representatives, to any nesting depth"""
+        a = norm_ann(a)
+        if not isinstance(a, dict):
+            if not fits_plain(r, a):
+                bad.append(name)
+            return
+        key = next(iter(a))
+        if key == "v":
+            if r[0] not in ("objs", "typed"):
+                bad.append(name)
+            else:
+                lower(a["v"], r[1], name)
+        elif key == "opt":
+            if r[0] in ("objs", "typed") and all(o is None for o in r[1]):
+                return  # None itself: accepted by the None alternative, no bound
+            match(a["opt"], r, name)
+        elif key in ("list", "tupv"):
+            if r[0] != key:
+                bad.append(name)
+            else:
+                match(a[key], r[1], name)
+        elif key in ("dict", "tup2"):
+            if r[0] != key:
+                bad.append(name)
+            else:
+                match(a[key][0], r[1], name)
+                match(a[key][1], r[2], name)
+
+    for name, v in ba.arguments.items():
+        p = by_name[name]
+        xs = list(v) if p["kind"] == "vp" else list(v.values()) if p["kind"] == "vk" else [v]
+        a = norm_ann(p["ann"])
+        rs = [arg_reps(x) for x in xs]
+        if not rs:
+            continue
+        if isinstance(a, dict) and "fun" in a:
+            k, rr = a["fun"]
+            for r in rs:
+                if r[0] != "fun":
+                    bad.append(name)
+                    continue
+                d = decl(k)
+                if d[0] == "constrained" and not any(sub_sval(r[1], c) for c in d[1]):
+                    bad.append(name)  # no constraint accepts the callback's parameter type
+                    continue
+                uppers[k].append(r[1])
+                if rr is None:
+                    pass
+                elif isinstance(rr, dict):
+                    lower(rr["v"], reps_sval(r[2]), name)
+                elif not sub_sval(r[2], "any" if rr == "any" else tuple(rr)):
+                    bad.append(name)
+        elif isinstance(a, dict) and "v" in a:
+            if any(r[0] not in ("objs", "typed") for r in rs):
+                bad.append(name)
+            else:
+                lower(a["v"], [o for r in rs for o in r[1]], name)  # collected arguments are one lower bound
+        else:
+            for r in rs:
+                match(a, r, name)
+    for p in sig["params"]:
+        a = p["ann"]
+        if p["name"] not in ba.arguments and p["default"] is not None and isinstance(a, dict) and "v" in a:
+            x = u6.obj_value(p["default"]["o"])
+            if decl_ok(a["v"], [x]):
+                lowers[a["v"]].append(x)
+    unsolvable, indeterminate = [], []
+    for k in range(len(tvs)):
+        S, U = lowers[k], uppers[k]
+        d = decl(k)
+        if S:
+            if d[0] == "constrained":
+                ok = any(objs_in(S, c) and all(sub_sval(c, p) for p in U) for c in d[1])
+            else:
+                ok = decl_ok(k, S) and all(objs_in(S, p) for p in U)
+            if not ok:
+                unsolvable.append(k)
+        elif U:
+            indeterminate.append(k)  # only upper bounds: any subtype of all of them would do
+    return {"binds": True, "bad": sorted(set(bad)), "unsolvable": unsolvable, "indeterminate": indeterminate,
+            "must_diagnose": bool(bad or unsolvable), "must_accept": not bad and not unsolvable and not indeterminate}
+
+
 def value_contains(val, r, fallback_counter):
     from pyanalyze.value import AnnotatedValue, AnyValue, KnownValue, MultiValuedValue, TypedValue
 
@@ -482,18 +793,35 @@ def coq_rann(r):
     return f"(RTy {sv(r)})"
 
 
+def coq_texp(a):
+    a = norm_ann(a)
+    if isinstance(a, dict):
+        key = next(iter(a))
+        if key == "v":
+            return f"(TVarE {a['v']})"
+        if key == "list":
+            return f"(TList {coq_texp(a['list'])})"
+        if key == "tupv":
+            return f"(TTupleVar {coq_texp(a['tupv'])})"
+        if key == "opt":
+            return f"(TOpt {coq_texp(a['opt'])})"
+        if key == "tup2":
+            return f"(TTuple2 {coq_texp(a['tup2'][0])} {coq_texp(a['tup2'][1])})"
+        return f"(TDict {coq_texp(a['dict'][0])} {coq_texp(a['dict'][1])})"
+    return f"(TTy {sv(a)})"
+
+
 def coq_ann(a):
+    a = norm_ann(a)
     if a is None:
         return "AnnNone"
-    if isinstance(a, dict):
-        if "v" in a:
-            return f"(AnnVar {a['v']})"
-        if "list" in a:
-            return f"(AnnList {a['list']})"
-        if "dict" in a:
-            return f"(AnnDict {a['dict'][0]} {a['dict'][1]})"
+    if isinstance(a, dict) and "fun" in a:
         return f"(AnnFun {a['fun'][0]} {coq_rann(a['fun'][1])})"
-    return f"(AnnTy {sv(a)})"
+    return f"(AnnE {coq_texp(a)})"
+
+
+def coq_elem(e):
+    return coq_aval(e) if isinstance(e, dict) else f"(AV {sv(e)})"
 
 
 def coq_aval(a):
@@ -502,9 +830,13 @@ def coq_aval(a):
     if "t" in a:
         return f"(AV {sv(a['t'])})"
     if "list" in a:
-        return f"(AList {sv(a['list'])})"
+        return f"(AList {coq_elem(a['list'])})"
+    if "tupv" in a:
+        return f"(ATupleVar {coq_elem(a['tupv'])})"
+    if "tup2" in a:
+        return f"(ATuple2 {coq_elem(a['tup2'][0])} {coq_elem(a['tup2'][1])})"
     if "dict" in a:
-        return f"(ADict {sv(a['dict'][0])} {sv(a['dict'][1])})"
+        return f"(ADict {coq_elem(a['dict'][0])} {coq_elem(a['dict'][1])})"
     p, r = u6.FUNS[a["fun"]]
     return f"(AFun {sv(p)} {sv(r)})"
 
@@ -525,8 +857,17 @@ def coq_decl(name):
     return "(Constrained " + lib.clist([uni.coq_sval(c) for c in d[1]]) + ")"
 
 
+def has_receiver(sig):
+    """methods, classmethods and dataclass constructors are modelled as the underlying function called
+    with the receiver prepended (Signature.bind_self / the synthesized __init__): the model signature gets
+    an unannotated first parameter and the model call an extra first positional argument"""
+    return sig["flavor"] in ("method", "classmethod", "dataclass")
+
+
 def coq_sig(sig):
     ps = []
+    if has_receiver(sig):
+        ps.append("mk_cparam (mkParam 99%N POK false) AnnNone None")
     for p in sig["params"]:
         d = "None" if p["default"] is None else f"(Some {coq_aval(p['default'])})"
         ps.append(f"mk_cparam (mkParam {lib.cn(name_code(p['name'], sig))} {KINDS[p['kind']]} {lib.cbool(p['default'] is not None)}) {coq_ann(p['ann'])} {d}")
@@ -534,7 +875,7 @@ def coq_sig(sig):
 
 
 def coq_call(sig, call):
-    pos = lib.clist([coq_aval(a) for a in call["pos"]])
+    pos = lib.clist((["(AV (obj_val O_instC))"] if has_receiver(sig) else []) + [coq_aval(a) for a in call["pos"]])
     kw = lib.clist([f"({lib.cn(name_code(n, sig))}, {coq_aval(a)})" for n, a in call["kw"]])
     star = "None" if call.get("star") is None else f"(Some (AV {sv(call['star'])}))"
     starkw = "None" if call.get("starkw") is None else f"(Some (AV {sv(call['starkw'])}))"
@@ -581,7 +922,7 @@ def run(tier: str, replay: str | None = None):
     gen = None
     try:
         gen = gen_files()
-    except tr_solve.TranslateError as ex:
+    except (tr_solve.TranslateError, tr_checkcall.TranslateError) as ex:
         broken_translation = str(ex)
     proof = lib.prove(PROP, gen, extra_targets=["theories/Gen/CallObjs.vo", "theories/Call/Model.vo"], thorough=(tier == "thorough")) if gen is not None else None
 
@@ -608,7 +949,7 @@ def run(tier: str, replay: str | None = None):
     impl = {}
     oracle_fail, harness_notes = [], []
     hist = {"flavor": {}, "generic": 0, "two_typevars": 0, "calls": 0, "literal_calls_that_bind": 0, "diagnosed": 0, "accepted": 0, "codes": {},
-            "model_kinds": {}, "executed": 0, "result_checked": 0, "result_fallback_can_assign": 0, "inferred_out_of_fragment": 0, "stray_errors": 0,
+            "model_kinds": {}, "executed": 0, "result_checked": 0, "result_fallback_can_assign": 0, "inferred_out_of_fragment": 0, "stray_errors": 0, "structured_calls_judged": 0, "structured_verdicts": {"must_diagnose": 0, "must_accept": 0, "either": 0},
             "arg_forms": {"o": 0, "t": 0, "list": 0, "dict": 0, "fun": 0, "star": 0, "starkw": 0},
             "param_kinds": {k: 0 for k in KINDS}, "ann_forms": {"none": 0, "type": 0, "v": 0, "list": 0, "dict": 0, "fun": 0}}
     fallback = [0]
@@ -629,7 +970,8 @@ def run(tier: str, replay: str | None = None):
             for p in s["params"]:
                 hist["param_kinds"][p["kind"]] += 1
                 a = p["ann"]
-                hist["ann_forms"]["none" if a is None else (next(iter(a)) if isinstance(a, dict) else "type")] += 1
+                kf = "none" if a is None else (next(iter(a)) if isinstance(a, dict) else "type")
+                hist["ann_forms"][kf] = hist["ann_forms"].get(kf, 0) + 1
         for name, (sig, call, text) in cases.items():
             key = json.dumps([sig["flavor"], sig["tvs"], sig["params"], sig["ret"], call], sort_keys=True)
             r = res[name]
@@ -639,7 +981,7 @@ def run(tier: str, replay: str | None = None):
             hist["generic"] += int(generic)
             hist["two_typevars"] += int(len(sig["tvs"]) > 1)
             for a in call["pos"] + [x for _, x in call["kw"]]:
-                hist["arg_forms"][next(iter(a))] += 1
+                hist["arg_forms"][next(iter(a))] = hist["arg_forms"].get(next(iter(a)), 0) + 1
             hist["arg_forms"]["star"] += int(call.get("star") is not None)
             hist["arg_forms"]["starkw"] += int(call.get("starkw") is not None)
             for c in set(r["codes"]):
@@ -649,7 +991,7 @@ def run(tier: str, replay: str | None = None):
             case_in = {"sig": sig, "call": call, "source": text, "def": render_sig(sig)[0].strip()[:300]}
             seen.add(key)
             o = None
-            if literal_call(call):
+            if literal_call(call) and simple_sig(sig):
                 o = oracle_case(mod, sig, call)
                 if o["binds"]:
                     hist["literal_calls_that_bind"] += 1
@@ -663,6 +1005,14 @@ def run(tier: str, replay: str | None = None):
                         if diagnosed != must:
                             oracle_fail.append((case_in, {"what": "generic call: diagnosed <=> some argument outside its declared type or no declared choice of a type variable fits all its arguments, fails",
                                                           "impl_codes": r["codes"], "impl_descr": r["descr"], "cpython_nonmembers": o["bad"], "solvable": o["solvable"]}))
+            if call.get("star") is None and call.get("starkw") is None:
+                of = oracle_full(mod, sig, call)
+                if of["binds"]:
+                    hist["structured_calls_judged"] += 1
+                    hist["structured_verdicts"]["must_diagnose" if of["must_diagnose"] else "must_accept" if of["must_accept"] else "either"] += 1
+                    if (of["must_diagnose"] and not diagnosed) or (of["must_accept"] and diagnosed):
+                        oracle_fail.append((case_in, {"what": "representative-object oracle: " + ("an argument has a representative outside its declared type / no value of a type variable fits all its bounds, but the call is accepted" if of["must_diagnose"] else "every representative fits and every type variable has a fitting value, but the call is diagnosed"),
+                                                      "impl_codes": r["codes"], "impl_descr": r["descr"], "oracle": {k: of[k] for k in ("bad", "unsolvable", "indeterminate")}}))
             if not diagnosed and call.get("star") is None and call.get("starkw") is None:
                 # execute the call; the inferred type must contain the result
                 try:
@@ -685,7 +1035,7 @@ def run(tier: str, replay: str | None = None):
                 if enc is None:
                     hist["inferred_out_of_fragment"] += 1
             impl[(gi, name)] = (sig, call, r, enc, case_in)
-            terms.append(f"check_call atom_ops rrs_limit {coq_sig(sig)} {coq_call(sig, call)}")
+            terms.append(f"check_call atom_ops rrs_limit (SU [A_litNone]) {coq_sig(sig)} {coq_call(sig, call)}")
             meta.append((gi, name))
     hist["result_fallback_can_assign"] = fallback[0]
 
@@ -733,7 +1083,7 @@ def run(tier: str, replay: str | None = None):
         rep.violation({"kind": "broken-correspondence", "correspondence": "Call.Model.check_call vs NameCheckVisitor on generated modules",
                        "input": case_in, "observed": obs["impl"], "model": obs["model"], "why": obs["why"], "n_mismatches": len(corr)}, no_failing_input=True)
     if broken_translation and not found:
-        rep.violation({"kind": "broken-obligation", "theorem": "Gen/Solve.v (translator harness/translate/solve.py)", "detail": broken_translation}, no_failing_input=True)
+        rep.violation({"kind": "broken-obligation", "theorem": "Gen/Solve.v / Gen/CheckCall.v (translators harness/translate/solve.py, checkcall.py)", "detail": broken_translation}, no_failing_input=True)
     if proof is not None and not proof.ok and not found:
         rep.violation({"kind": "broken-obligation", "theorem": "; ".join(proof.broken), "log": proof.log[-1500:]}, no_failing_input=True)
 
